@@ -91,7 +91,6 @@ func runC13(ctx *Ctx) {
 	c13Docs(ctx, r)
 }
 
-
 // ---- path trees: documents with {parameters}, Path directives under URL or method, expected binding
 
 type pathRes struct {
